@@ -270,7 +270,8 @@ theorem C15.nearest_outside_clamps (c : Nat → K) (n : Nat) (p : K) (h : Incr c
 length `N`, combined position-wise) gives, entry by entry, the single-point results at its
 columns; a mesh grid (per-axis arrays combined by broadcasting) gives, in C order, the
 single-point results at the points of the cartesian product.  Holds for the per-axis/linear
-interpolator and for the nearest interpolator, every dimension. -/
+interpolator and for the nearest interpolator, every dimension, every number of points per
+axis (since the repair of finding C15-F1 the mesh-grid call has no input guard any more). -/
 theorem C15.call_convention_invariant (axes : List (Axis K)) (v : List Nat → V)
     (W : Type) (w : List Nat → W) (xs : List (List K)) (h : xs.length = axes.length) :
     perAxisArray axes v xs = (columns xs).map (perAxisInterp axes v) ∧
@@ -294,42 +295,15 @@ example : cartesian [[(1 : ℚ), 2], [3, 4, 5]] = [[1, 3], [1, 4], [1, 5], [2, 3
     columns [[(1 : ℚ), 2, 3], [4, 5, 6]] = [[1, 4], [2, 5], [3, 6]] := by
   constructor <;> simp [cartesian, columns]
 
-/-
-FULL STATEMENT (does not hold for the code as it is, finding C15-F1):
-  `∀ lens, meshInputOk lens = true` — every mesh grid is accepted, so that
-  `call_convention_invariant` describes every mesh-grid call.
-What holds: the mesh-grid call is accepted unless the mesh has exactly one point along the
-first axis and several along another one.
--/
-/-- Mesh-grid input is accepted by `_Interpolator.__call__` whenever the first axis carries
-more than one point, or every axis carries exactly one (in particular every 1-d mesh with at
-least two points, every mesh of a discretized space without a single-cell first axis). -/
-theorem C15.mesh_input_ok_partial (n0 : Nat) (rest : List Nat)
-    (h : n0 ≠ 1 ∨ ∀ n ∈ rest, n = 1) : meshInputOk (n0 :: rest) = true := by
-  rcases h with h | h
-  · simp [meshInputOk, h]
-  · simp only [meshInputOk, Bool.not_eq_true', Bool.and_eq_false_iff]
-    right
-    simpa using h
+/-- Nearest-neighbour interpolation works for every value dtype class — floats, complex,
+integers, strings of any width, objects: the node search on `float64` points never raises
+(complete finite table; full statement since the repair of finding C15-F3). -/
+theorem C15.value_dtypes_ok (vk : VKind) : findIndicesOutcome vk = .ok := by
+  cases vk <;> decide
 
-/-- Counterexample on the model (finding C15-F1): one point on the first axis, three on the
-second — the mesh-grid call is rejected although the same points are fine as a point array. -/
-theorem C15.mesh_single_first_axis_fails : meshInputOk [1, 3] = false := by decide
-
-/-
-FULL STATEMENT (does not hold for the code as it is, finding C15-F3):
-  `∀ vk, findIndicesOutcome vk = .ok` — nearest-neighbour interpolation works for every value
-  dtype, strings included.
--/
-/-- For every value-dtype class except wide strings (`≥ U32`) the node search on `float64`
-points succeeds (complete finite table). -/
-theorem C15.value_dtypes_ok_partial (vk : VKind) (h : vk ≠ .strWide) :
-    findIndicesOutcome vk = .ok := by
-  cases vk <;> simp_all [findIndicesOutcome, castSafe]
-
-/-- Counterexample on the model (finding C15-F3): wide string values make `_find_indices`
-raise, because the points are cast to the value dtype. -/
-theorem C15.wide_string_values_fail : findIndicesOutcome .strWide = .typeError := by decide
+/-- Sensitivity (the code before the repair of C15-F3): without the numeric-dtype guard wide
+string values (`≥ U32`) make `_find_indices` raise, because the points are cast to strings. -/
+theorem C15.wide_string_values_fail_old : findIndicesOutcomeOld .strWide = .typeError := by decide
 
 /-- Sampling dispatch: whatever the calling convention of the user's callable (out-of-place
 only, dual use, in-place only) and whether or not `out` is given, every path through
